@@ -96,7 +96,7 @@ pub fn program_from_bytes(data: &[u8], allow_fill: bool) -> Program {
         };
         cur.push(op);
     }
-    Program { cancelable, threads, cycles, schedule, fine }
+    Program { cancelable, threads, cycles, schedule, fine, pool: 0, lazy_reg: false }
 }
 
 pub const KNOWN: &[&str] = &[
